@@ -268,3 +268,88 @@ def signed_permutations(rng, d, shape=(), involution=False, fix0=False):
                 break
         out[ind] = M
     return out
+
+
+# ---------------------------------------------------------------------------
+# structured matrices (the classes special-cased by 'fast paths')
+
+STRUCTURED = ["unitary-phases", "unitary-qr", "unitary-householder", "scaled-unitary",
+              "real-orthogonal", "permutation", "involution-oblique", "unipotent",
+              "unitary-block-rotation", "hermitian-positive"]
+
+
+def draw_structured(rng, d, sclass, shape=(), cx=True):
+    """stack (shape + (d, d)) of matrices of a structured class, never the
+    identity.  With cx the complex member of the class is drawn (unitary instead
+    of orthogonal, complex unipotent, ...); 'unitary-*' classes are unitary to
+    rounding (|U U^* - I| ~ 1e-16), which is what numerical 'is it orthogonal?'
+    tests see.  Column or row convention alike (each class is closed under
+    transposition)."""
+    shape = tuple(shape)
+    dt = complex if cx else float
+    out = np.empty(shape + (d, d), dtype=dt)
+
+    def gauss(*s):
+        g = rng.normal(size=s)
+        return g + 1j * rng.normal(size=s) if cx else g
+
+    def unitary():
+        q, r = np.linalg.qr(gauss(d, d))
+        ph = np.diagonal(r) / np.abs(np.diagonal(r))
+        return q * ph                                  # Haar, never real when cx
+
+    def phases():
+        if cx:
+            return np.exp(1j * rng.uniform(0.3, 2 * np.pi - 0.3, size=d))
+        s = rng.choice([-1.0, 1.0], size=d)
+        s[int(rng.integers(0, d))] = -1.0
+        if d > 1 and np.all(s < 0):
+            s[0] = 1.0
+        return s
+    for ind in np.ndindex(*shape):
+        if sclass == "unitary-phases":
+            M = np.diag(phases())
+        elif sclass == "unitary-qr":
+            M = unitary()
+        elif sclass == "real-orthogonal":
+            # a real orthogonal matrix (held in a complex array when cx)
+            q, r = np.linalg.qr(rng.normal(size=(d, d)))
+            M = q * np.sign(np.diagonal(r))
+        elif sclass == "unitary-householder":
+            v = gauss(d)
+            M = np.eye(d, dtype=dt) - 2.0 * np.outer(v, np.conj(v)) / np.real(np.vdot(v, v))
+        elif sclass == "scaled-unitary":
+            M = unitary() * (np.exp(rng.uniform(-2, 2)) * (np.exp(1j * rng.uniform(0, 6.28)) if cx else 1.0))
+        elif sclass == "permutation":
+            while True:
+                perm = rng.permutation(d)
+                if np.any(perm != np.arange(d)):
+                    break
+            M = np.eye(d, dtype=dt)[perm]
+            if cx:
+                M = M * phases()[:, None]              # monomial unitary
+        elif sclass == "involution-oblique":
+            S = rp.rand_invertible(rng, d, cx=cx, cond_max=8.0)
+            s = np.ones(d)
+            s[:max(1, d // 2)] = -1.0
+            M = S @ np.diag(s) @ np.linalg.inv(S)
+        elif sclass == "unipotent":
+            M = np.eye(d, dtype=dt) + np.triu(gauss(d, d), 1) * 0.7
+            if d > 1 and np.allclose(M, np.eye(d)):
+                M[0, 1] = 1.0
+        elif sclass == "unitary-block-rotation":
+            t = rng.uniform(0.3, 2.8)
+            M = np.eye(d, dtype=dt)
+            i, j = (int(k) for k in rng.choice(d, size=2, replace=False))
+            M[i, i] = M[j, j] = np.cos(t)
+            M[i, j], M[j, i] = -np.sin(t), np.sin(t)
+            if cx:
+                D = np.diag(phases())
+                M = D @ M @ np.conj(D) @ np.diag(phases())
+        elif sclass == "hermitian-positive":
+            U = unitary()
+            M = (U * np.exp(rng.uniform(-1, 1, size=d))) @ np.conj(U).T
+        else:
+            raise ValueError(sclass)
+        out[ind] = M
+    return out
